@@ -7,4 +7,4 @@ for p in "$@"; do
   echo "[$name] $p: $(echo "$out" | grep -E 'VIOLATION|^OK|KNOWN' | head -2 | tr '\n' ' ')"
 done
 git -C /repo checkout -- .
-(cd /verif/harness && CARGO_TARGET_DIR=/verif/.cache/cargo-target cargo build --release --offline --quiet 2>/dev/null; cd /verif && python3 lib/gen.py >/dev/null)
+(cd /verif/harness && CARGO_TARGET_DIR=/verif/.cache/cargo-target RUSTFLAGS="--cfg lambda_calculus_verif" cargo build --release --offline --quiet 2>/dev/null; cd /verif && python3 lib/gen.py >/dev/null)
